@@ -97,6 +97,54 @@ fn transcript<C: S>(g: &str, seed: u64, m: &mut Map<String, Value>) {
             m.insert(format!("{}/multisig-verifies/{}", g, sn), json!(multi.verify(mpk, &ms[3]).is_ok()));
         }
     }
+    // accumulated keys over lists in which the SAME key occurs in different internal representations (the point as
+    // decoded, identity + P, P + identity, (P + Q) - Q, -(-P), 2P - P, P + Q against Q + P): the two backends keep
+    // different coordinates for the same point, the accumulated key and the verdicts derived from it must not show it
+    {
+        let (a, b) = (&ks[3].1, &ks[4].1);
+        let (pa, pb) = (a.public_key().0, b.public_key().0);
+        let id = <C as Pairing>::PublicKey::identity();
+        let reps_a: Vec<(&str, <C as Pairing>::PublicKey)> = vec![
+            ("plain", pa),
+            ("identity+P", id + pa),
+            ("P+identity", pa + id),
+            ("P-identity", pa - id),
+            ("(P+Q)-Q", (pa + pb) - pb),
+            ("-(-P)", -(-pa)),
+            ("2P-P", pa.double() - pa),
+            ("one-member-committee", MultiPublicKey::<C>::from_public_keys([PublicKey::<C>(pa)]).0),
+            ("decoded", PublicKey::<C>::try_from(Vec::from(&PublicKey::<C>(pa)).as_slice()).unwrap().0),
+        ];
+        let msg = &ms[3];
+        let s = SignatureSchemes::ProofOfPossession;
+        let (sa, sb) = (a.sign(s, msg).unwrap(), b.sign(s, msg).unwrap());
+        let multi = MultiSignature::<C>::from_signatures([sa, sa, sb]).unwrap();
+        for (ni, ri) in &reps_a {
+            for (nj, rj) in &reps_a {
+                for (shape, list) in [("a-a-b", vec![*ri, *rj, pb]), ("a-b-a", vec![*ri, pb, *rj]), ("b-a-a", vec![pb, *ri, *rj])] {
+                    let mpk = MultiPublicKey::<C>::from_public_keys(list.iter().map(|p| PublicKey::<C>(*p)).collect::<Vec<_>>());
+                    m.insert(format!("{}/multikey-representations/{}/{}/{}/bytes", g, shape, ni, nj), json!(hx(Vec::from(&mpk))));
+                    m.insert(format!("{}/multikey-representations/{}/{}/{}/verifies", g, shape, ni, nj), json!(multi.verify(mpk, msg).is_ok()));
+                }
+            }
+        }
+        // two committees holding the same key computed in the two orders
+        let (ab, ba) = (pa + pb, pb + pa);
+        for (name, list) in [("A+B,B+A", vec![ab, ba]), ("A+B,A+B", vec![ab, ab]), ("B+A,A+B,b", vec![ba, ab, pb]), ("A+B,b,B+A", vec![ab, pb, ba])] {
+            let mpk = MultiPublicKey::<C>::from_public_keys(list.iter().map(|p| PublicKey::<C>(*p)).collect::<Vec<_>>());
+            m.insert(format!("{}/multikey-representations/committees/{}/bytes", g, name), json!(hx(Vec::from(&mpk))));
+            let from_slice = MultiPublicKey::<C>::from(list.iter().map(|p| PublicKey::<C>(*p)).collect::<Vec<_>>().as_slice());
+            m.insert(format!("{}/multikey-representations/committees/{}/from-slice-bytes", g, name), json!(hx(Vec::from(&from_slice))));
+        }
+        // the same for accumulated signatures and aggregates
+        let (ga, gb) = (*sa.as_raw_value(), *sb.as_raw_value());
+        let sid = <C as Pairing>::Signature::identity();
+        for (name, rep) in [("plain", ga), ("identity+S", sid + ga), ("(S+T)-T", (ga + gb) - gb), ("2S-S", ga.double() - ga)] {
+            let list = [sa, Signature::<C>::ProofOfPossession(rep), sb];
+            m.insert(format!("{}/multisig-representations/{}/bytes", g, name), json!(MultiSignature::<C>::from_signatures(list).map(|x| hx(Vec::from(&x))).unwrap_or_else(|e| e.to_string())));
+            m.insert(format!("{}/aggregate-representations/{}/bytes", g, name), json!(AggregateSignature::<C>::from_signatures(list).map(|x| hx(Vec::from(&x))).unwrap_or_else(|e| e.to_string())));
+        }
+    }
     // aggregates over a collision alphabet: equal keys (adjacent or not), a key and its negation, equal messages,
     // messages that differ only in bytes that are not valid UTF-8; every list of length 2, and of length 3 under PoP
     {
